@@ -26,6 +26,8 @@ JacOnCurve(G, j) == LET x == JX(G, j)  y == JY(G, j)  z == JZ(G, j)
                     IN z = CZero(G) \/ CMul(G, y, y) = CAdd(G, CMul(G, x, CMul(G, x, x)), CMul(G, CB(G), z6))
 JacOK(G, j) == JacCanon(G, j) /\ JacOnCurve(G, j)
 Dl(G, kb) == GMul(G, FromBE(kb), GGen(G))                       \* textbook k * generator
+\* optional observation of a result through the library's own normalisation: the raw encoding (absent for the identity)
+EncOK(e, want) == "enc" \in DOMAIN e => (IF want = Inf THEN IsNone(e.enc) ELSE IsSome(e.enc) /\ e.enc.v = Enc(e.G, want, "raw"))
 Sampled(e, m) == e.seq % m = 0
 \* ---------------------------------------------------------------- drift check of the Level-B transcription (coverage, never a verdict)
 \* JacAlgo (the transcription model-checked exhaustively on tiny curves by ImplJacobian / ImplMachine) evaluated at SM9 size on
@@ -45,11 +47,11 @@ ChkGAddSub(e) ==
     /\ JacOK(e.G, e.a) /\ JacOK(e.G, e.b) /\ JacOK(e.G, e.out)
     /\ LET A == AbsJ(e.G, e.a)  Bp == AbsJ(e.G, e.b)  O == AbsJ(e.G, e.out)
            want == IF e.op = "g.add" THEN GAdd(e.G, A, Bp) ELSE GAdd(e.G, A, GNeg(e.G, Bp))
-       IN /\ O = want /\ e.isz = (want = Inf)
+       IN /\ O = want /\ e.isz = (want = Inf) /\ EncOK(e, want)
           /\ (Sampled(e, 16) /\ ~("nodl" \in DOMAIN e /\ e.nodl) =>       \* the logged discrete logarithms, by textbook scalar multiplication
                  /\ A = Dl(e.G, e.ka) /\ Bp = Dl(e.G, e.kb)
                  /\ O = Dl(e.G, ToBE(IF e.op = "g.add" THEN BAddMod(FromBE(e.ka), FromBE(e.kb), R) ELSE BSubMod(FromBE(e.ka), FromBE(e.kb), R), 32)))
-ChkGNeg(e) == JacOK(e.G, e.a) /\ JacOK(e.G, e.out) /\ AbsJ(e.G, e.out) = GNeg(e.G, AbsJ(e.G, e.a))
+ChkGNeg(e) == JacOK(e.G, e.a) /\ JacOK(e.G, e.out) /\ AbsJ(e.G, e.out) = GNeg(e.G, AbsJ(e.G, e.a)) /\ EncOK(e, GNeg(e.G, AbsJ(e.G, e.a)))
 ChkGLaws(e) ==
     /\ \A j \in {e.a, e.b, e.c, e.ab, e.ba, e.ab_c, e.a_bc, e.a0, e.z0a} : JacOK(e.G, j)
     /\ LET A == AbsJ(e.G, e.a)  Bp == AbsJ(e.G, e.b)  Cp == AbsJ(e.G, e.c)
@@ -60,7 +62,7 @@ ChkGLaws(e) ==
 \* ---------------------------------------------------------------- C05
 ChkGMul(e) == /\ JacOK(e.G, e.a) /\ JacOK(e.G, e.out) /\ Canon("Fr", e.k)
               /\ LET want == GMul(e.G, FromBE(e.k), AbsJ(e.G, e.a))
-                 IN AbsJ(e.G, e.out) = want /\ e.isz = (want = Inf)
+                 IN AbsJ(e.G, e.out) = want /\ e.isz = (want = Inf) /\ EncOK(e, want)
 ChkGModLaws(e) ==
     /\ \A j \in {e.a, e.spt, e.sp_tp, e.st, e.s_tp, e.zero, e.one, e.m1, e.rm1p_p} : JacOK(e.G, j)
     /\ LET A == AbsJ(e.G, e.a)  s == FromBE(e.s)  t == FromBE(e.t)
